@@ -150,6 +150,15 @@ func (w *world) fitsPool(ts []int, n int) bool {
 }
 
 func (w *world) emit(e string, f ab.Rec) {
+	// A table with far more entries than any history keeps live (a huge buffer that was not unmapped) is not
+	// written out: the event carries its size in "ovf" and the specification refuses it outright.
+	if pt, ok := f["pt"].([]ab.Rec); ok {
+		f["ovf"] = 0
+		if len(pt) > maxLogged {
+			f["ovf"] = len(pt)
+			f["pt"] = pt[:32]
+		}
+	}
 	w.stats["events"]++
 	w.stats["ev_"+e]++
 	w.rec.Emit(e, f)
@@ -763,6 +772,9 @@ const nProfiles = 7
 
 // maxDump bounds the page-table dump of one event.
 const maxDump = 4000
+
+// maxLogged is the largest table an event carries (histories keep at most a few dozen pages live).
+const maxLogged = 600
 
 func randomScenario(rng *rand.Rand, i int) *Scenario {
 	profile := profileOf(i)
